@@ -148,6 +148,10 @@ def srcOut (cfg : Cfg) (op : String) (a : Array Nat) : Option (List String) :=
          | some .panic => ["items", "panic"]
          | some (.ok (n, h)) => ["items", "ok", toString n, toString h]))
     | _, _, _ => none
+  | "rpt_pages", [r, page] =>
+    -- C20: the hook `verif_table_pages(page: Page<Size4KiB>, R)` prints p3_page, p2_page, p1_page
+    some (sVal (Src.rec_p3_page cfg (b64 size4K) (b64 page) (b16 r)) ++ sVal (Src.rec_p2_page cfg (b64 size4K) (b64 page) (b16 r))
+      ++ sVal (Src.rec_p1_page cfg (b64 page) (b16 r)))
   | "range4k", [s, e] =>
     let r := (b64 s, b64 e)
     match Src.PageRange_as_4kib_page_range cfg r with
